@@ -83,6 +83,7 @@ func init() {
 		"bytes.NewBuffer", "(*bytes.Buffer).Bytes", "(*bytes.Buffer).Write", "(*bytes.Buffer).Len", "(*bytes.Buffer).WriteByte",
 		"(*bytes.Buffer).Reset", "(*bytes.Buffer).Grow",
 		"crypto/sha256.New", "crypto/sha512.New", "crypto/sha512.New384",
+		"io.MultiReader", "io.LimitReader", "io.TeeReader", "bufio.NewReader", "bufio.NewReaderSize",
 		"(*github.com/fxamacker/cbor/v2.Encoder).Encode",
 	} {
 		stubNames[n] = true
@@ -778,15 +779,22 @@ func (e *Engine) callStub(name string, recv Value, args []Value) Value {
 	// ---- ecdsa ----------------------------------------------------------------------------------------
 	case "crypto/ecdsa.Sign":
 		priv := args[1].(PtrV)
+		if ferr, failing := e.randFailure(args[0]); failing {
+			return TupleV{PtrV{}, PtrV{}, ferr}
+		}
 		r, s, err := e.ecdsaSign(priv, args[2].(BytesV))
 		return TupleV{r, s, err}
 	case "(*crypto/ecdsa.PrivateKey).Sign", "crypto/ecdsa.SignASN1":
 		var priv PtrV
 		var dig BytesV
+		var rd Value
 		if name == "crypto/ecdsa.SignASN1" {
-			priv, dig = args[1].(PtrV), args[2].(BytesV)
+			rd, priv, dig = args[0], args[1].(PtrV), args[2].(BytesV)
 		} else {
-			priv, dig = args[0].(PtrV), args[2].(BytesV)
+			priv, rd, dig = args[0].(PtrV), args[1], args[2].(BytesV)
+		}
+		if ferr, failing := e.randFailure(rd); failing {
+			return TupleV{e.zero(types.NewSlice(types.Typ[types.Uint8])), ferr}
 		}
 		r, s, err := e.ecdsaSign(priv, dig)
 		if err.typ != nil {
@@ -926,11 +934,21 @@ func (e *Engine) callStub(name string, recv Value, args []Value) Value {
 		}
 		e.unsupported("bytes.TrimLeft of this rope shape")
 
+	// ---- readers built around the entropy source: opaque, and - whatever they wrap - counted as working
+	// (a wrapper may mask the failure of the reader inside; only the native replay decides)
+	case "io.MultiReader", "io.LimitReader", "io.TeeReader", "bufio.NewReader", "bufio.NewReaderSize":
+		return Iface{typ: e.fake("rand"), val: OpaqueV{kind: "rand-wrapped"}}
+
 	// ---- rsa --------------------------------------------------------------------------------------------
 	case "(*crypto/rsa.PrivateKey).Sign":
 		priv := args[0].(PtrV)
 		dig := e.bytesRope(args[2].(BytesV))
 		opts := args[3].(Iface)
+		if strings.HasSuffix(opts.typ.String(), "rsa.PSSOptions") {
+			if ferr, failing := e.randFailure(args[1]); failing {
+				return TupleV{e.zero(types.NewSlice(types.Typ[types.Uint8])), ferr}
+			}
+		}
 		okv := e.envBool("rsa.Sign.ok")
 		if e.forceOK {
 			e.addPC(okv)
@@ -1242,6 +1260,19 @@ func (e *Engine) asn1Blob(r, s PtrV) BytesV {
 	}
 	e.asn1Blobs[arr.id] = asn1Sig{r, s}
 	return e.bytesFromRope(Rope{SegBlob{arr, e.c64(0), n}})
+}
+
+// randFailure: the entropy source handed to a primitive is the harness's failing reader (vFailRand): the
+// primitive reads from it before anything else and returns its error (crypto/ecdsa, crypto/rsa PSS salt).
+// Any other reader - also a wrapper the code under test built around the failing one - counts as working.
+func (e *Engine) randFailure(r Value) (Iface, bool) {
+	if ifc, ok := r.(Iface); ok {
+		if o, ok := ifc.val.(OpaqueV); ok && o.kind == "rand-fail" {
+			e.envFailures++
+			return o.data.(Iface), true
+		}
+	}
+	return Iface{}, false
 }
 
 func (e *Engine) ecdsaSign(priv PtrV, digest BytesV) (PtrV, PtrV, Iface) {
